@@ -2,9 +2,72 @@ import LJT.Ops.Util
 import LJT.Model.ICC
 import LJT.Model.Header
 import LJT.Model.CopyOpt
+import LJT.Model.HeaderIO
 import LJT.Gen.Err
 namespace LJT.Ops
 open LJT.ICC LJT.Header
+
+/-- `n` groups of `(id h v tq)` from a token list -/
+def takeComps : Nat → List Nat → Option (List HeaderIO.CompInfo × List Nat)
+  | 0, r => some ([], r)
+  | n + 1, i :: h :: v :: q :: r => do
+    let (cs, r') ← takeComps n r
+    some (⟨i, h, v, q⟩ :: cs, r')
+  | _ + 1, _ => none
+
+/-- stage 2 of `hdrw`: `hdrio W prec h w nc (id h v tq)*nc J wj maj min unit xd yd A wa tr RI ri SEG app0 app14 sof dri
+D sj maj min unit xd yd sa tr prec h w nc (id h v tq)*nc ri L l0 l14`.  Checks (1) that the model's marker writer
+produces exactly the segments the compressor wrote for these fields and (2) that the model's marker reader, given those
+segments under the save limits, reports exactly what jpeg_read_header reported. -/
+def hdrio (t : List String) : Option String := do
+  match t with
+  | "W" :: prec :: h :: w :: nc :: rest =>
+    let prec ← nat? prec; let h ← nat? h; let w ← nat? w; let nc ← nat? nc
+    let (ctoks, rest) := (rest.take (4 * nc), rest.drop (4 * nc))
+    let cn ← nats? ctoks
+    let (comps, _) ← takeComps nc cn
+    match rest with
+    | "J" :: wj :: maj :: mnr :: unit :: xd :: yd :: "A" :: wa :: tr :: "RI" :: ri :: "SEG" :: a0 :: a14 :: sof :: dri :: "D" :: drest =>
+      let wj ← nat? wj; let maj ← nat? maj; let mnr ← nat? mnr; let unit ← nat? unit; let xd ← nat? xd; let yd ← nat? yd
+      let wa ← nat? wa; let tr ← nat? tr; let ri ← nat? ri
+      let a0b ← hexBytes? a0; let a14b ← hexBytes? a14; let sofb ← hexBytes? sof; let drib ← hexBytes? dri
+      let jf : HeaderIO.Jfif := ⟨maj, mnr, unit, xd, yd⟩
+      let sf : HeaderIO.Sof := ⟨prec, h, w, comps⟩
+      -- (1) the writer
+      if wj = 1 && a0b != HeaderIO.jfifPayload jf then some "bad writer: APP0" else
+      if wj = 0 && a0b != [] then some "bad writer: APP0 written although write_JFIF_header is off" else
+      if wa = 1 && a14b != HeaderIO.adobePayload tr then some "bad writer: APP14" else
+      if wa = 0 && a14b != [] then some "bad writer: APP14 written although write_Adobe_marker is off" else
+      if sofb != HeaderIO.sofBytes sf then some "bad writer: SOF" else
+      if ri != 0 && drib != HeaderIO.driBytes ri then some "bad writer: DRI" else
+      if ri = 0 && drib != [] then some "bad writer: DRI written for interval 0" else
+      -- (2) the reader
+      let dn ← ints? (drest.filter (· != "L"))
+      let dnat := dn.map Int.toNat
+      match dnat with
+      | sj :: dmaj :: dmnr :: dunit :: dxd :: dyd :: sa :: dtr :: dprec :: dh :: dw :: dnc :: more =>
+        let (dcomps, more2) ← takeComps dnc more
+        match more2, dn.reverse with
+        | [dri2, _, _], l14 :: l0 :: _ =>
+          let lim0 := if l0 < 0 then 0 else l0.toNat
+          let lim14 := if l14 < 0 then 0 else l14.toNat
+          let ej := if wj = 1 then HeaderIO.examineApp0 (a0b.take (HeaderIO.examinedLen 0xE0 lim0 a0b.length)) else none
+          let ea := if wa = 1 then HeaderIO.examineApp14 (a14b.take (HeaderIO.examinedLen 0xEE lim14 a14b.length)) else none
+          let okj := match ej with
+            | some j => sj = 1 && j == ⟨dmaj, dmnr, dunit, dxd, dyd⟩
+            | none => sj = 0
+          let oka := match ea with
+            | some x => sa = 1 && x = dtr
+            | none => sa = 0
+          if !okj then some "bad reader: JFIF fields" else
+          if !oka then some "bad reader: Adobe fields" else
+          if HeaderIO.parseSof sofb != some ⟨dprec, dh, dw, dcomps⟩ then some "bad reader: SOF fields" else
+          if (if ri = 0 then dri2 != 0 else HeaderIO.parseDri drib != some dri2) then some "bad reader: DRI" else
+          some "ok"
+        | _, _ => none
+      | _ => none
+    | _ => none
+  | _ => none
 
 def genByte (seed k : Nat) : Nat := ((seed + 1) * (k + 17) * 40503 / 64) % 256
 def genBytes (seed len : Nat) : List Nat := (List.range len).map (genByte seed)
@@ -20,6 +83,7 @@ def parseMsave : List Nat → List (Nat × Nat × Nat × Nat)
   | _ => []
 
 def opC16 : List String → Option String
+  | "hdrio" :: rest => hdrio rest
   | ["iccw", len, seed] => do
     let len ← nat? len; let seed ← nat? seed
     if len = 0 then some s!"err {Gen.JERR_BUFFER_SIZE}" else
